@@ -19,6 +19,7 @@ mod c07;
 mod c09;
 mod c10;
 mod c11;
+mod c12;
 mod c15;
 mod c16;
 mod c17;
@@ -71,6 +72,8 @@ fn main() {
         "c09-wal" => c09::wal_leg(&args),
         "c11-recover" => c11::recover_leg(&args),
         "c08-stamps" => c11::stamps_leg(&args),
+        "c12-crash" => c12::crash_leg(&args),
+        "c13-compact" => c12::compact_leg(&args),
         "c10-wal" => c10::wal_leg(&args),
         "c14-codec" => c10::codec_leg(&args),
         "c19-place" => c19::place_leg(&args),
